@@ -1782,10 +1782,14 @@ class StateEngine(object):
                 execution_arn otherwise end the execution.
                 """
                 if task_terminated:
-                    if execution_arn in self.branch_metadata:
+                    metadata = self.branch_metadata.get(execution_arn)
+                    if metadata and not getattr(metadata, "cancelled", False):
                         self.check_pending_results(execution_arn)
                     else:
-                        self.end_execution(state_machine, state_type, event)           
+                        # Cancelled from outside (see asl_state_collect_results)
+                        if metadata:
+                            metadata.cancelled = False
+                        self.end_execution(state_machine, state_type, event)
                 else:
                     self.end_execution(state_machine, state_type, event)
 
@@ -3296,6 +3300,19 @@ class StateEngine(object):
                 context_state["RetryTimeout"] = retry_timeout
 
             if error:
+                """
+                If a Task or Wait has been terminated although no Branch of
+                this execution has failed, it was cancelled from outside the
+                execution (the Task of the parent execution that launched it
+                synchronously timed out or was itself terminated). Nothing
+                else is going to end this execution in that case, so note
+                that the termination has to once it reaches the top level.
+                """
+                if error == "Task.Terminated" and not any(
+                    "terminated" in r for r in all_branch_results.values()
+                ):
+                    self.branch_metadata[execution_arn].cancelled = True
+
                 # Set range to terminate subsequent branches/iterations
                 branch_results["terminated"] = str(start) + ":" + str(end)
 
